@@ -52,6 +52,17 @@ def check(ctx):
         calls = [n for n in ast.walk(i2) if isinstance(n, ast.Call) and isinstance(n.func, ast.Attribute) and n.func.attr == "__init__"]
         ok = i2.args.kwarg is not None and bool(calls) and any(k.arg is None and dotted(k.value) == i2.args.kwarg.arg for k in calls[0].keywords)
         ctx.check(ok, "D4-ctor", i2, "%s.__init__ forwards **%s to Exchange.__init__" % (cn, i2.args.kwarg.arg if i2.args.kwarg else "?"), "settings would be dropped")
+        # .. and leaves the two timeouts to Exchange.__init__: a subclass that names them hands them on as they were given
+        W = FuncView(ctx, i2)
+        for cnode, cc in [(n_, c_) for n_, c_ in W.attr_calls(("__init__",))]:
+            for k in cc.keywords:
+                if k.arg in ("timeout", "redoTimeout"):
+                    v = W.sym(k.value, cnode)
+                    ctx.check(isinstance(v, ast.Name) and v.id == k.arg and k.arg in {a.arg for a in i2.args.args + i2.args.kwonlyargs},
+                              "D4-ctor", cc, "%s.__init__ passes %s on unchanged (%s)" % (cn, k.arg, src(v)),
+                              "Exchange.__init__ is where `None means default` is decided: a subclass that converts or tests the value "
+                              "first (`float(x) if x else None`) turns an explicit 0 - `never time out` / `never redo` - into the class "
+                              "default")
     pr = E.own_method("process")
     V = FuncView(ctx, pr)
     fl = V.call_nodes("self.fail")
